@@ -169,6 +169,11 @@ func CoqProbe(q []QKey) string {
 // ---- generation of conflict-free path sets from a random selection tree
 
 var IntKeys = []int64{0, 1, 2, 3, 7, 10, 63, 64, 100, 4294967296}
+
+// BigKeys: integer keys and indices that a float64 cannot hold exactly (around 2^53, 2^62, the
+// end of int64); each is used together with its successor.
+var BigKeys = []int64{9007199254740991, 9007199254740992, 9007199254740993, 4611686018427387904, 4611686018427387905,
+	1234567890123456789, 9223372036854775806, 4294967296, 36028797018963969}
 var StrKeys = []string{"a", "b", "k1", "", "x y", "a\"b", "back\\slash", "*", "$", "1", "tab\there"}
 
 type Gen struct {
@@ -199,8 +204,13 @@ func (g *Gen) subsetInts(max int) [][]int64 {
 		}
 		groups = append(groups, grp)
 	}
-	if g.R.Chance(1, 12) {
-		groups = append(groups, []int64{4294967296})
+	if g.R.Chance(1, 4) {
+		// a big key and (as a group of its own, so with its own sub selection) its successor
+		b := BigKeys[g.R.Intn(len(BigKeys))]
+		groups = append(groups, []int64{b})
+		if g.R.Chance(2, 3) {
+			groups = append(groups, []int64{b + 1})
+		}
 	}
 	return groups
 }
